@@ -25,6 +25,7 @@ CONSTANTS DomCfgs <- {domcfgs}
 PROPERTY ChangeOnlyAtOwnEdge
 PROPERTY ResetLessIgnoresResets
 PROPERTY OutsideUnaffected
+PROPERTY MemoryIgnoresResets
 CHECK_DEADLOCK FALSE
 """
 
@@ -40,7 +41,8 @@ def _parse(files):
         events, expected = [], []
         for _, st in steps[1:]:
             events.append(tuple(st["ev"]))
-            expected.append((st["v"]["r1"], st["v"]["r2"], st["v"]["r3"], st["v"]["r4a"] + 2 * st["v"]["r4b"]))
+            expected.append((st["v"]["r1"], st["v"]["r2"], st["v"]["r3"], st["v"]["r4a"] + 2 * st["v"]["r4b"],
+                             st["v"]["mw"], st["v"]["mr"], st["v"]["mt"]))
         out.append((cfg, events, expected))
     return out
 
@@ -52,7 +54,7 @@ def _worker(files):
         feats = {"both_edges": any(e[0] == "clk" for e in job[1]) and any(
             e[0] == "clk" and i > 0 for i, e in enumerate(job[1])), "wrappers": len(job[0]["ws"])}
         res.append((repr((job[0], job[1])), feats, mm, {"cfg": job[0], "events": [list(e) for e in job[1][:8]],
-                                                         "expected_r1_r2_r3_r4": [list(e) for e in job[2][:8]]}))
+                                                         "expected_r1_r2_r3_r4_mw_mr_mt": [list(e) for e in job[2][:8]]}))
     return res
 
 
@@ -89,7 +91,7 @@ def run(ctx):
                 key = {"ws": [(w["k"], w["dom"], w.get("c", w.get("to"))) for w in cfg["ws"]],
                        "A": (cfg["A"]["edge"], cfg["A"]["rst"]), "B": (cfg["B"]["edge"], cfg["B"]["rst"]),
                        "d1": cfg["d1"], "d2": cfg["d2"], "error": mm.get("error", "").split(":")[0]}
-                ctx.violation(key, "design %s: after event #%d %s registers (r1, r2, r3, r4) = %s, AmDesign says %s%s" % (
+                ctx.violation(key, "design %s: after event #%d %s state (r1, r2, r3, r4, mw, mr, mt) = %s, AmDesign says %s%s" % (
                     cfg, mm["step"], mm.get("event"), mm.get("actual"), mm.get("expected"), (" " + mm["error"]) if "error" in mm else ""),
                     replay=mm)
     ctx.cov["stages"]["replay/behaviours"] = {"behaviours": n, "events_each": depth, "by_wrapper_stack_depth": stacks}
@@ -99,7 +101,7 @@ def run(ctx):
                        "random event sequence (clock edges incl. simultaneous ones, reset/control/data changes); non-trivial = "
                        "at least one wrapper; registers compared after every event")
     ctx.assume("input, control and reset changes never coincide with a clock edge in one testbench write (a testbench race in pysim; unspecified)")
-    ctx.assume("memory ports under the wrappers are covered by C11's configurations, not here; controls are 1 bit wide")
+    ctx.assume("controls are 1 bit wide; the memory under the wrappers is one row with always-enabled ports")
 
 
 def replay(ctx, rep):
